@@ -453,10 +453,14 @@ theorem mInfoOf_closed (h : H) (prev : List MInfo) (hprev : ∀ (m : Nat) (mi : 
         obtain ⟨kv', hkv', hx⟩ := lookup_mem e.1 ri.getl x hl
         rw [← hx]; exact hr.2.2 kv' hkv'
     · intro kv hkv
-      simp only [List.mem_append] at hkv
-      rcases hkv with hkv | hkv
-      · exact hr.2.2 kv hkv
-      · exact ho.2.2 kv hkv
+      simp only [List.mem_map] at hkv
+      obtain ⟨e, he, rfl⟩ := hkv
+      cases hl : lookup e.1 ri.getl with
+      | none => simp only [hl]; exact ho.2.2 e he
+      | some x =>
+        simp only [hl]
+        obtain ⟨kv', hkv', hx⟩ := lookup_mem e.1 ri.getl x hl
+        rw [← hx]; exact hr.2.2 kv' hkv'
 
 theorem mtable_snoc (ms : List MObj) (m : MObj) :
     mUpTo (ms ++ [m]) (ms ++ [m]).length = mUpTo ms ms.length ++ [mInfoOf (mUpTo ms ms.length) m] := by
